@@ -70,3 +70,25 @@ Theorem C06_zero_is_rest :
   cc_byte f0 = 0%N /\ cc_byte (fabs f0) = 0%N /\ cc_byte (fdiv (fadd f0 f1) f2) = 63%N /\ pb_bytes true f0 = (0%N, 64%N).
 Proof. exact transmit_zero. Qed.
 Print Assumptions C06_zero_is_rest.
+
+(* The negative end stop of a signed axis: for EVERY range with -2^31 <= min < 0 (any maximum) and EVERY finite deadzone
+   0 <= dz < 1, the shaped position at raw = min is exactly -1.0 (x / |x| = -1 exactly; -1 + dz rounds to the exact
+   opposite of 1 - dz because round-to-nearest-even is symmetric) *)
+Theorem C06_endstop_min_exact : forall mn mx dz,
+  (- 2 ^ 31 <= mn < 0)%Z -> B.is_finite dz = true -> (0 <= B.B2R dz < 1)%R ->
+  fst (shape mn mx false dz mn) = fm1.
+Proof. exact endstop_min. Qed.
+Print Assumptions C06_endstop_min_exact.
+
+(* ... the lower end stop raw = 0 of an unsigned axis re-centred by deadzone_at_center as well *)
+Theorem C06_endstop_min_centred : forall mx dz,
+  (0 < mx < 2 ^ 31)%Z -> B.is_finite dz = true -> (0 <= B.B2R dz < 1)%R ->
+  fst (shape 0 mx true dz 0) = fm1.
+Proof. exact endstop_min_centred. Qed.
+Print Assumptions C06_endstop_min_centred.
+
+(* ... and -1.0 is transmitted as 127 on the negative controller of a pair, 0 on a unidirectional controller, 0 on pitch bend *)
+Theorem C06_minus_one_is_full_scale :
+  cc_encode true true fm1 = (true, 127%N) /\ cc_encode true false fm1 = (false, 0%N) /\ pb_bytes true fm1 = (0%N, 0%N).
+Proof. exact transmit_minus_one. Qed.
+Print Assumptions C06_minus_one_is_full_scale.
